@@ -535,8 +535,10 @@ theorem writtenCells_perm (mu : Mut) {m m' : VMap} (h : SameMap m m') :
   | consSome f hp _ ih =>
     simp only [List.flatMap_cons]
     refine List.Perm.append ?_ ih
-    simp only [familyCells, writtenInner_snd, countedInner, writtenInner_perm mu hp]
-    exact hp.map _
+    simp only [familyCells, writtenInner_snd, countedInner, writtenInner_perm mu hp, hp.length_eq]
+    split
+    · exact List.Perm.refl _
+    · exact hp.map _
   | swap a b m =>
     simp only [List.flatMap_cons, ← List.append_assoc]
     exact List.Perm.append_right _ List.perm_append_comm
@@ -642,7 +644,7 @@ theorem writtenCells_intended (mu : Mut) (m : VMap) :
     · by_cases hl : l.length = 0
       · have : l = [] := List.eq_nil_of_length_eq_zero hl
         subst this
-        simp [hk]
+        by_cases ho : mu.deleteOneVersion = true <;> simp [hk, ho, c10, c14, emptyQualifier]
       · have hne : l.isEmpty = false := by
           cases l with
           | nil => exact absurd rfl hl
@@ -674,7 +676,8 @@ theorem cellsOfProto_intended (mu : Mut) (m : VMap) :
     · by_cases hl : l.length = 0
       · have : l = [] := List.eq_nil_of_length_eq_zero hl
         subst this
-        simp [hk]
+        by_cases ho : mu.deleteOneVersion = true <;>
+          simp [hk, ho, emptyQualifier, Spec.cellOfQV, Spec.codeOfDelete, hts]
       · have hne : l.isEmpty = false := by
           cases l with
           | nil => exact absurd rfl hl
